@@ -3,6 +3,8 @@ C08 — writers repeat each structure the configured number of times.
 -/
 import FemtoVerif.Model.Writers
 import FemtoVerif.Proofs.Session
+import FemtoVerif.Props.C01
+import FemtoVerif.Spec.C08
 import Mathlib.Tactic.Ring
 import Mathlib.Tactic.Linarith
 import Mathlib.Tactic.NormNum
@@ -203,6 +205,272 @@ theorem wg_bunch_compiles (cfg : Cfg) (b : List WG) (w : WG) (rest : List WG) (c
   refine ⟨_, ?_, rfl⟩
   simp only [execOp]
   rw [if_neg (by omega)]
+
+
+/-! ### the machine's moves: every structure written its number of scans times -/
+
+/-- statement lists without loops -/
+def atomsOnly (ss : List Stmt) : Prop := ∀ s ∈ ss, ∃ i, s = Stmt.atom i
+
+theorem atomsOnly_emit (is : List Instr) : atomsOnly (emit is) := by
+  intro s hs; simp only [emit, List.mem_map] at hs; obtain ⟨i, _, rfl⟩ := hs; exact ⟨i, rfl⟩
+
+theorem atomsOnly_append {a b : List Stmt} (ha : atomsOnly a) (hb : atomsOnly b) : atomsOnly (a ++ b) := by
+  intro s hs; rcases List.mem_append.mp hs with h | h
+  · exact ha s h
+  · exact hb s h
+
+theorem atomsOnly_nil : atomsOnly [] := by intro s hs; simp at hs
+
+/-- a loop-free statement list is interpreted like its flat instruction list -/
+theorem execStmts_atoms (ss : List Stmt) (h : atomsOnly ss) (σ : St) :
+    execStmts ss σ = execFlat (flattenStmts ss) σ := by
+  induction ss generalizing σ with
+  | nil => simp [execStmts, flattenStmts, execFlat]
+  | cons s ss ih =>
+    obtain ⟨i, rfl⟩ := h s (by simp)
+    rw [execStmts, ih (fun t ht => h t (by simp [ht]))]
+    simp [flattenStmts, flattenStmt, execFlat, execStmt]
+
+theorem dwell_atoms (p : Option Rat) (cs : CS) : atomsOnly (dwell p cs).1 := by
+  unfold dwell
+  cases p with
+  | none => exact atomsOnly_nil
+  | some t => by_cases h : t = 0 <;> simp [h, atomsOnly_nil, atomsOnly_emit]
+
+theorem shutter_atoms (cfg : Cfg) (on : Bool) (cs : CS) : atomsOnly (shutter cfg on cs).1 := by
+  unfold shutter
+  split
+  · exact atomsOnly_emit _
+  · split
+    · exact atomsOnly_emit _
+    · exact atomsOnly_nil
+
+theorem toggle_atoms (cfg : Cfg) (on : Bool) (cs : CS) : atomsOnly (toggle cfg on cs).1 := by
+  unfold toggle
+  simp only [seq]
+  exact atomsOnly_append (atomsOnly_append (atomsOnly_append (atomsOnly_emit _) (dwell_atoms _ _)) (shutter_atoms _ _ _))
+    (atomsOnly_append (dwell_atoms _ _) (atomsOnly_emit _))
+
+theorem writeLoop_atoms (cfg : Cfg) (ws : List (G1W × Rat)) : ∀ prev cs, atomsOnly (writeLoop cfg prev ws cs).1 := by
+  induction ws with
+  | nil => intro _ _; exact atomsOnly_nil
+  | cons hd rest ih =>
+    obtain ⟨w, s⟩ := hd
+    intro prev cs
+    simp only [writeLoop]
+    refine atomsOnly_append (atomsOnly_append ?_ ?_) (ih _ _)
+    · unfold toggleStep; split
+      · exact toggle_atoms _ _ _
+      · split
+        · exact toggle_atoms _ _ _
+        · exact atomsOnly_nil
+    · unfold maybeG1; split
+      · exact atomsOnly_emit _
+      · exact atomsOnly_nil
+
+/-- what `write` emits contains no loop -/
+theorem write_atoms (cfg : Cfg) (m : List Pt) (cs : CS) (o : Out) (hw : write cfg m cs = .ok o) : atomsOnly o.1 := by
+  unfold write at hw
+  cases hm : m.mapM (formatPt cfg) with
+  | error e => rw [hm] at hw; simp [Except.map] at hw
+  | ok ws =>
+    rw [hm] at hw; simp only [Except.map] at hw
+    injection hw with hw; subst hw
+    simp only [seq]
+    exact atomsOnly_append (atomsOnly_append (writeLoop_atoms _ _ _ _) (dwell_atoms _ _)) (atomsOnly_emit _)
+
+
+/-- the paths of a group are *closed*: a non-empty matrix ends with the shutter marked closed -/
+def endsClosed (m : List Pt) : Prop := ∀ p, m.getLast? = some p → p.s = 0
+
+/-- **one pass**: the writes of a group, compiled one after the other from a closed-shutter state, are loop-free, succeed, leave
+the compiler's belief closed, and — interpreted from any controller state in absolute mode with the shutter closed — perform
+`passFrom`: every member replayed point for point, in order, each from where the previous one ended -/
+theorem writes_pass (cfg : Cfg) (ms : List (List Pt)) (wss : List (List (G1W × Rat)))
+    (hp : List.Forall₂ (fun m ws => printed cfg m = .ok ws) ms wss)
+    (hs : ∀ m ∈ ms, ∀ p ∈ m, p.s = 0 ∨ p.s = 1) (hc : ∀ m ∈ ms, endsClosed m) :
+    ∀ (cs : CS) (σ : St), cs.shutterOn = false → σ.absMode = true → σ.shutter = false →
+      let r := execOps cfg (ms.map Op.write) cs
+      r.err = none ∧ r.pre = [] ∧ atomsOnly r.out ∧ r.cs.shutterOn = false ∧
+        movesOf (execFlat (flattenStmts r.out) σ).2 = passFrom σ.pos wss ∧
+        (execFlat (flattenStmts r.out) σ).1.pos = passEnd σ.pos wss ∧
+        (execFlat (flattenStmts r.out) σ).1.absMode = true ∧ (execFlat (flattenStmts r.out) σ).1.shutter = false := by
+  induction hp with
+  | nil =>
+    intro cs σ hcs habs hsh
+    simp [execOps, atomsOnly_nil, flattenStmts, execFlat, movesOf, passFrom, passEnd, hcs, habs, hsh]
+  | @cons m ws ms wss hmw _ ih =>
+    intro cs σ hcs habs hsh
+    have hw : ∃ o, write cfg m cs = .ok o := by
+      unfold printed at hmw; unfold write; rw [hmw]; exact ⟨_, rfl⟩
+    obtain ⟨o, hw⟩ := hw
+    have hsm := hs m (by simp)
+    obtain ⟨w1, w2⟩ := Femto.C01.write_replays cfg m cs o σ ws hw hmw hsm habs (by rw [hsh, hcs])
+    obtain ⟨f1, f2⟩ := Femto.C01.write_final_state cfg m cs o σ ws hw hmw hsm habs (by rw [hsh, hcs])
+    have f3 : o.2.shutterOn = false := by
+      rw [Femto.C01.write_final_shutter cfg m cs o hw hsm]
+      cases hl : m.getLast? with
+      | none => exact hcs
+      | some p => have := hc m (by simp) p hl; simp [this]
+    obtain ⟨i1, i2, i3, i4, i5, i6, i7, i8⟩ := ih (fun m' hm' => hs m' (by simp [hm'])) (fun m' hm' => hc m' (by simp [hm']))
+      o.2 (execFlat (flattenStmts o.1) σ).1 f3 f2 (by rw [w2, f3])
+    simp only [List.map_cons, execOps, execOp, hw, Res.ofOut]
+    rw [i1]
+    refine ⟨rfl, by simp [i2], atomsOnly_append (write_atoms cfg m cs o hw) i3, i4, ?_, ?_, ?_, ?_⟩
+    · simp only [flattenStmts_append, execFlat_append, movesOf_append, w1, i5, f1, passFrom]
+    · simp only [flattenStmts_append, execFlat_append, i6, f1, passEnd]
+    · simp only [flattenStmts_append, execFlat_append, i7]
+    · simp only [flattenStmts_append, execFlat_append, i8]
+
+
+/-- the behaviour `writes_pass` establishes for one compiled pass, as a predicate on a statement list -/
+def IsPass (body : List Stmt) (wss : List (List (G1W × Rat))) : Prop :=
+  ∀ σ : St, σ.absMode = true → σ.shutter = false →
+    movesOf (execStmts body σ).2 = passFrom σ.pos wss ∧ (execStmts body σ).1.pos = passEnd σ.pos wss ∧
+      (execStmts body σ).1.absMode = true ∧ (execStmts body σ).1.shutter = false
+
+/-- **`REPEAT n` performs the pass `n` times**: the moves of `n` turns are `scansFrom` — `n` copies of the pass, each starting
+where the previous one ended (so the first turn starts from wherever the machine was, the others from the end of the path) -/
+theorem execRep_scans (body : List Stmt) (wss : List (List (G1W × Rat))) (hb : IsPass body wss) (n : Nat) :
+    ∀ σ : St, σ.absMode = true → σ.shutter = false →
+      movesOf (execRep n body σ).2 = scansFrom σ.pos wss n ∧ (execRep n body σ).1.pos = scansEnd σ.pos wss n ∧
+        (execRep n body σ).1.absMode = true ∧ (execRep n body σ).1.shutter = false := by
+  induction n with
+  | zero => intro σ habs hsh; simp [execRep, movesOf, scansFrom, scansEnd, habs, hsh]
+  | succ k ih =>
+    intro σ habs hsh
+    obtain ⟨b1, b2, b3, b4⟩ := hb σ habs hsh
+    obtain ⟨r1, r2, r3, r4⟩ := ih (execStmts body σ).1 b3 b4
+    rw [execRep]
+    simp only [movesOf_append, b1, r1, b2, r2, r3, r4, scansFrom, scansEnd, and_self]
+
+/-- **C08, a group of waveguides.** `with G.repeat(n): for wg in group: G.write(wg.points)` for closed paths that `write`
+accepts and `n ≥ 1`, compiled from a closed-shutter state: no error, exactly one `REPEAT n` statement, and the reference
+controller — from any state in absolute mode with the shutter closed — performs `scansFrom`: the whole group, member by member
+and point for point, exactly `n` times. -/
+theorem group_scans_replayed (cfg : Cfg) (ms : List (List Pt)) (wss : List (List (G1W × Rat))) (n : Int) (hn : 0 < n)
+    (hp : List.Forall₂ (fun m ws => printed cfg m = .ok ws) ms wss)
+    (hs : ∀ m ∈ ms, ∀ p ∈ m, p.s = 0 ∨ p.s = 1) (hc : ∀ m ∈ ms, endsClosed m)
+    (cs : CS) (σ : St) (hcs : cs.shutterOn = false) (habs : σ.absMode = true) (hsh : σ.shutter = false) :
+    let r := execOp cfg (Op.rep n (ms.map Op.write)) cs
+    r.err = none ∧ r.pre = [] ∧ r.cs.shutterOn = false ∧ (∃ body, r.out = [Stmt.rep n.toNat body, Stmt.atom .blank]) ∧
+      movesOf (execStmts r.out σ).2 = scansFrom σ.pos wss n.toNat ∧ (execStmts r.out σ).1.pos = scansEnd σ.pos wss n.toNat ∧
+      (execStmts r.out σ).1.absMode = true ∧ (execStmts r.out σ).1.shutter = false := by
+  have hpass : IsPass (execOps cfg (ms.map Op.write) cs).out wss := by
+    intro σ' habs' hsh'
+    obtain ⟨_, _, a3, _, a5, a6, a7, a8⟩ := writes_pass cfg ms wss hp hs hc cs σ' hcs habs' hsh'
+    rw [execStmts_atoms _ a3]
+    exact ⟨a5, a6, a7, a8⟩
+  obtain ⟨a1, a2, _, a4, _⟩ := writes_pass cfg ms wss hp hs hc cs σ hcs habs hsh
+  obtain ⟨s1, s2, s3, s4⟩ := execRep_scans _ wss hpass n.toNat σ habs hsh
+  simp only [execOp]
+  rw [if_neg (by omega)]
+  refine ⟨a1, a2, a4, ⟨_, rfl⟩, ?_, ?_, ?_, ?_⟩
+  · have e : movesOf ([] : List Ev) = [] := rfl
+    simp only [execStmts, execStmt, step, movesOf_append, s1, e, List.append_nil]
+  · simp [execStmts, execStmt, step, s2]
+  · simp [execStmts, execStmt, step, s3]
+  · simp [execStmts, execStmt, step, s4]
+
+
+theorem execStmts_append (a b : List Stmt) (σ : St) :
+    execStmts (a ++ b) σ = ((execStmts b (execStmts a σ).1).1, (execStmts a σ).2 ++ (execStmts b (execStmts a σ).1).2) := by
+  induction a generalizing σ with
+  | nil => simp [execStmts]
+  | cons s a ih => simp only [List.cons_append, execStmts, ih, List.append_assoc]
+
+/-- the operations of `WaveguideWriter.pgm` before the final `go_init`: one `repeat` block per group -/
+def bunchOps (bunches : List (List WG)) : List Op :=
+  bunches.map fun b => Op.rep (match b with | w :: _ => w.scan | [] => 0) (b.map fun w => Op.write w.pts)
+
+theorem wgOps_eq (bunches : List (List WG)) : wgOps bunches = bunchOps bunches ++ [Op.goInit] := rfl
+
+/-- a group the writer can compile, with its printed matrices and its scan count: non-empty, scan count of the first
+member `n ≥ 1`, every member accepted by `write`, shutter marks 0 / 1, paths closed -/
+def GroupOK (cfg : Cfg) (b : List WG) (g : List (List (G1W × Rat)) × Nat) : Prop :=
+  (∃ w rest, b = w :: rest ∧ w.scan = (g.2 : Int) ∧ 0 < g.2) ∧
+    List.Forall₂ (fun m ws => printed cfg m = .ok ws) (b.map (·.pts)) g.1 ∧
+    (∀ m ∈ b.map (·.pts), ∀ p ∈ m, p.s = 0 ∨ p.s = 1) ∧ (∀ m ∈ b.map (·.pts), endsClosed m)
+
+/-- **C08, the waveguide file.** The operations of `WaveguideWriter.pgm` for any list of compilable groups: the reference
+controller performs `groupsFrom` — group after group, each written exactly its number of scans times, every scan replaying
+every member point for point; nothing else moves the machine. -/
+theorem wg_groups_replayed (cfg : Cfg) (bunches : List (List WG)) (specs : List (List (List (G1W × Rat)) × Nat))
+    (h : List.Forall₂ (GroupOK cfg) bunches specs) :
+    ∀ (cs : CS) (σ : St), cs.shutterOn = false → σ.absMode = true → σ.shutter = false →
+      let r := execOps cfg (bunchOps bunches) cs
+      r.err = none ∧ r.pre = [] ∧ r.cs.shutterOn = false ∧ movesOf (execStmts r.out σ).2 = groupsFrom σ.pos specs ∧
+        (execStmts r.out σ).1.absMode = true ∧ (execStmts r.out σ).1.shutter = false := by
+  induction h with
+  | nil =>
+    intro cs σ hcs habs hsh
+    simp [bunchOps, execOps, execStmts, movesOf, groupsFrom, hcs, habs, hsh]
+  | @cons b g bunches specs hg _ ih =>
+    intro cs σ hcs habs hsh
+    obtain ⟨⟨w, rest, hb, hscan, hpos⟩, hp, hs, hc⟩ := hg
+    have hmap : (b.map fun w => Op.write w.pts) = (b.map (·.pts)).map Op.write := by simp [List.map_map]
+    have hn : (0 : Int) < w.scan := by rw [hscan]; exact_mod_cast hpos
+    obtain ⟨g1, g2, g3, _, g5, g6, g7, g8⟩ := group_scans_replayed cfg (b.map (·.pts)) g.1 w.scan hn hp hs hc cs σ hcs habs hsh
+    have hop : (match b with | w :: _ => w.scan | [] => 0) = w.scan := by rw [hb]
+    obtain ⟨i1, i2, i3, i4, i5, i6⟩ := ih (execOp cfg (Op.rep w.scan ((b.map (·.pts)).map Op.write)) cs).cs
+      (execStmts (execOp cfg (Op.rep w.scan ((b.map (·.pts)).map Op.write)) cs).out σ).1 g3 g7 g8
+    simp only [bunchOps, List.map_cons, execOps, hop, hmap, g1]
+    simp only [bunchOps] at i1 i2 i3 i4 i5 i6
+    rw [i1]
+    refine ⟨rfl, by rw [i2, g2]; rfl, i3, ?_, ?_, ?_⟩
+    · obtain ⟨wss, n⟩ := g
+      have hn' : w.scan.toNat = n := by simp at hscan; omega
+      simp only [execStmts_append, movesOf_append, g5, i4, g6, groupsFrom, hn']
+    · simp only [execStmts_append, i5]
+    · simp only [execStmts_append, i6]
+
+/-- **C08, Nasu waveguides.** One Nasu waveguide with `adj_scan = n`: the writer compiles `n` writes (`adjOrder_length`), the
+`k`-th being the path shifted by `adjScanOrder n [k]` times the shift vector (`shiftPts_spec`: feed and shutter untouched), and
+the controller replays each of them point for point, in that order, each pass starting where the previous one ended. -/
+theorem nasu_passes_replayed (cfg : Cfg) (w : Nasu) (wss : List (List (G1W × Rat)))
+    (hp : List.Forall₂ (fun m ws => printed cfg m = .ok ws)
+      ((adjScanOrder w.adjScan).map fun k => shiftPts w.pts k w.dx w.dy w.dz) wss)
+    (hs : ∀ p ∈ w.pts, p.s = 0 ∨ p.s = 1) (hc : endsClosed w.pts)
+    (cs : CS) (σ : St) (hcs : cs.shutterOn = false) (habs : σ.absMode = true) (hsh : σ.shutter = false) :
+    let r := execOps cfg ((adjScanOrder w.adjScan).map fun k => Op.write (shiftPts w.pts k w.dx w.dy w.dz)) cs
+    wss.length = w.adjScan ∧ r.err = none ∧ r.cs.shutterOn = false ∧
+      movesOf (execStmts r.out σ).2 = passFrom σ.pos wss ∧ (execStmts r.out σ).1.shutter = false := by
+  have hmap : ((adjScanOrder w.adjScan).map fun k => Op.write (shiftPts w.pts k w.dx w.dy w.dz)) =
+      ((adjScanOrder w.adjScan).map fun k => shiftPts w.pts k w.dx w.dy w.dz).map Op.write := by simp [List.map_map]
+  have hs' : ∀ m ∈ (adjScanOrder w.adjScan).map (fun k => shiftPts w.pts k w.dx w.dy w.dz), ∀ p ∈ m, p.s = 0 ∨ p.s = 1 := by
+    intro m hm p hp'
+    obtain ⟨k, _, rfl⟩ := List.mem_map.mp hm
+    simp only [shiftPts, List.mem_map] at hp'
+    obtain ⟨q, hq, rfl⟩ := hp'
+    exact hs q hq
+  have hc' : ∀ m ∈ (adjScanOrder w.adjScan).map (fun k => shiftPts w.pts k w.dx w.dy w.dz), endsClosed m := by
+    intro m hm p hp'
+    obtain ⟨k, _, rfl⟩ := List.mem_map.mp hm
+    simp only [shiftPts, List.getLast?_map, Option.map_eq_some_iff] at hp'
+    obtain ⟨q, hq, rfl⟩ := hp'
+    exact hc q hq
+  obtain ⟨a1, _, a3, a4, a5, _, _, a8⟩ := writes_pass cfg _ wss hp hs' hc' cs σ hcs habs hsh
+  refine ⟨?_, ?_, ?_, ?_, ?_⟩
+  · rw [← hp.length_eq, List.length_map]; exact adjOrder_length _
+  · rw [hmap]; exact a1
+  · rw [hmap]; exact a4
+  · rw [hmap, execStmts_atoms _ a3]; exact a5
+  · rw [hmap, execStmts_atoms _ a3]; exact a8
+
+
+/-! non-vacuity: two closed waveguides in one group, three scans, mirrored and shifted configuration; the hypotheses of
+`wg_groups_replayed` are met and the trace has 3 × (moves of one pass) moves -/
+private def demoCfg : Cfg := { shiftX := 1/2, flipX := true, neff := 2 }
+private def demoA : List Pt := [⟨0, 0, 0, 5, 0⟩, ⟨0, 0, 0, 5, 1⟩, ⟨1, 0, 0, 20, 1⟩, ⟨2, 1, 0, 20, 1⟩, ⟨2, 1, 0, 20, 0⟩, ⟨0, 0, 0, 5, 0⟩]
+private def demoB : List Pt := [⟨0, 1, 0, 5, 0⟩, ⟨0, 1, 0, 5, 1⟩, ⟨3, 1, 0, 20, 1⟩, ⟨3, 1, 0, 20, 0⟩, ⟨0, 1, 0, 5, 0⟩]
+
+example : (match printed demoCfg demoA, printed demoCfg demoB with
+    | .ok wa, .ok wb => (groupsFrom {} [([wa, wb], 3)]).length == 21 && (passFrom {} [wa, wb]).length == 7
+    | _, _ => false) = true := by decide +kernel
+example : (∀ p ∈ demoA, p.s = 0 ∨ p.s = 1) ∧ (∀ p ∈ demoB, p.s = 0 ∨ p.s = 1) := by decide
+example : endsClosed demoA ∧ endsClosed demoB := by
+  constructor <;> (intro p h; simp [demoA, demoB] at h; subst h; rfl)
 
 /-! ### file names -/
 
